@@ -212,7 +212,7 @@ def meta_leg(ctx: Ctx) -> None:
     """MC_Metadata: theorems, refutation of the two design errors, emission, replay"""
     from ..tlc import MachineryError, read_emitted, run_tlc, workdir
 
-    maxterms, slice_mod = (2, 2) if ctx.quick else (3, 8)       # the theorems are checked on every state; the replay takes the seed's slice
+    maxterms, slice_mod = (2, 3) if ctx.quick else (3, 12)      # the theorems are checked on every state; the replay takes the seed's slice
     out = workdir("c10") / "metadata.ndjson"
     out.unlink(missing_ok=True)
     invs = ["SlicesOK", "NamesDistinct", "StatsIntegral", "NonInterference", "SubsetRegenerates"]
